@@ -29,8 +29,8 @@ import os
 
 from hypothesis import strategies as st
 
-from harness.core import Sub, Fail, call, exc_sig, REPO
-from harness.ref import reftl
+from harness.core import Sub, Fail, call, exc_sig, REPO, HarnessError
+from harness.ref import reftl, refkeys
 
 SCH = reftl.bundled(REPO)
 reftl.self_check(SCH)
@@ -42,7 +42,7 @@ RULE = ('case = (validators: list of (32-byte Ed25519 seed, weight); block id; s
         'member-i / bit-flipped / valid-for-another-block (root or file hash changed, or swapped) / valid-by-non-member / '
         'member-id-with-foreign-signature, in generated order, members may repeat). 0..12 validators; weights from '
         '{0,1,2,3, random up to 2^62} or engineered so that 3*signed - 2*total is in {-3..3} (exact 2/3 and both sides). '
-        'enum-small: n=0..5 validators x 3 weight patterns x every subset of signers x 7 list shapes. '
+        'enum-small: n=0..5 validators x 3 weight patterns x every subset of signers x 9 list shapes. '
         'non-trivial = list holds an adversarial element or a repeated signer, or |3*signed - 2*total| <= 3; '
         'distinct = distinct case')
 ASSUMPTIONS = ['PyNaCl Ed25519 signing (deterministic) from generated seeds', 'hashlib.sha256',
@@ -72,7 +72,7 @@ def analyse(case):
     signers = []
     for e in case['sigs']:
         k = e['k']
-        if k == 'valid':
+        if k in ('valid', 'valid-alt'):
             signers.append(e['i'])
         elif k in ('bitflip', 'impersonate'):
             reasons.add('invalid-signature')
@@ -112,6 +112,11 @@ def check(case):
         if k == 'valid':
             sk, pk = keys[e['i']]
             s = sk.sign(payload).signature
+        elif k == 'valid-alt':                               # another valid signature by the same member (other nonce)
+            _, pk = keys[e['i']]
+            s = refkeys.ed_sign_alt(bytes.fromhex(case['validators'][e['i']]['seed']), payload, bytes([e['salt']]))
+            if not refkeys.ed_verify(pk, payload, s):
+                raise HarnessError('alternate-nonce signature does not verify')
         elif k == 'bitflip':
             sk, pk = keys[e['i']]
             s = bytearray(sk.sign(payload).signature)
@@ -186,6 +191,8 @@ def enum_small(tier):
                     m = members[0]
                     shapes.append(('dup', base + [{'k': 'valid', 'i': m}]))
                     shapes.append(('dup-x3', [{'k': 'valid', 'i': m}] * 3 + base[1:]))
+                    shapes.append(('dup-alt', base + [{'k': 'valid-alt', 'i': m, 'salt': mask % 256}]))
+                    shapes.append(('alt-only', [{'k': 'valid-alt', 'i': i, 'salt': i} for i in members]))
                     shapes.append(('bitflip', base[1:] + [{'k': 'bitflip', 'i': m, 'bit': (mask * 37) % 512}]))
                     shapes.append(('otherblk', [{'k': 'otherblk', 'i': m, 'how': ('root', 'file', 'swap')[mask % 3],
                                                  'bit': (mask * 11) % 256}] + base[1:]))
@@ -249,6 +256,8 @@ def _case(draw):
             extra.append({'k': 'valid', 'i': draw(st.sampled_from(pool))})
             if not signers:
                 extra.append(dict(extra[-1]))
+            if draw(st.booleans()):                          # the repeat is a *different* valid signature
+                extra[-1] = {'k': 'valid-alt', 'i': extra[-1]['i'], 'salt': draw(st.integers(0, 255))}
         elif kd == 'bitflip':
             extra.append({'k': 'bitflip', 'i': draw(st.integers(0, n - 1)), 'bit': draw(st.integers(0, 511))})
         elif kd == 'otherblk':
@@ -290,12 +299,12 @@ def classify(case):
 
 def nontrivial(case):
     expect, reasons, signed, total = analyse(case)
-    adv = any(e['k'] != 'valid' for e in case['sigs']) or 'duplicate-signer' in reasons
+    adv = any(e['k'] not in ('valid', 'valid-alt') for e in case['sigs']) or 'duplicate-signer' in reasons
     return adv or abs(3 * signed - 2 * total) <= 3
 
 
 SUBCHECKS = [
     Sub('enum-small', check, enum=enum_small, classify=classify, nontrivial=nontrivial, shards=(16, 32),
-        note='n=0..5 (thorough 0..7) validators x 3 weight patterns x every signer subset x 7 list shapes'),
+        note='n=0..5 (thorough 0..7) validators x 3 weight patterns x every signer subset x 9 list shapes'),
     Sub('random', check, strategy=strat, classify=classify, nontrivial=nontrivial, n=(4000, 300000), shards=(16, 48)),
 ]
